@@ -222,6 +222,11 @@ def run(prop, tier, seed, rep):
         raw = [b"*" + v.encode() + b";\n" for v in vs]
         jobs.append(("radar-close", [[list(b"".join(raw[:2])), "short"]], line_info(raw[:2]), "disconnect", "close"))
         jobs.append(("radar-retry", [[list(b"".join(raw[:2])), "short"]], line_info(raw), "reconnect", "retry", [[list(b"".join(raw[2:])), "short"]]))
+        # the first connection ends in the middle of a line: the lines of the second connection are complete lines of the
+        # feed all the same (the beginning that was never finished is not)
+        frag = rng.choice((b"*", b"*8D4840", raw[3][:rng.randrange(2, len(raw[3]) - 1)]))
+        jobs.append(("radar-retry", [[list(b"".join(raw[:2]) + frag), rng.choice(("short", "long"))]], line_info(raw), "reconnect-partial", "retry",
+                     [[list(b"".join(raw[2:])), "short"]]))
 
     def do(job):
         kind = job[0]
